@@ -485,9 +485,51 @@ func (k *c19) nilDerefs(f *ssa.Function) {
 				k.obl("C19.N", key, true, events[0].Pos(), "REVIEWED — "+why)
 				return
 			}
+			// the value hangs off a parameter of an unexported helper: decide at every call site, in the caller's frame
+			if why := k.dischargedByCallers(f, v); why != "" {
+				k.obl("C19.N", key, true, events[0].Pos(), why)
+				return
+			}
 		}
 		k.obl("C19.N", key, ok2, instrPos(events[0]), fmt.Sprintf("%s (JSON-nullable: %s) is dereferenced / handed to a dereferencing callee at %d site(s); every such site lies behind a nil check of the same value", pp, src, len(events)), w...)
 	})
+}
+
+// dischargedByCallers: v (rooted at a parameter of the unexported, never address-taken f) is non-nil at every static
+// call site of f: the caller guards the corresponding value before the call, or holds a reviewed reason for it.
+func (k *c19) dischargedByCallers(f *ssa.Function, v ssa.Value) string {
+	c := k.c
+	if f.Object() == nil || f.Object().Exported() || !strings.HasPrefix(c.Path(v, nil), "$") || k.addressTaken(f) {
+		return ""
+	}
+	n := 0
+	for _, g := range c.Funcs {
+		bad := false
+		forEachInstr(g, func(in ssa.Instruction) {
+			cl, ok := in.(*ssa.Call)
+			if !ok || cl.Call.StaticCallee() != f {
+				return
+			}
+			env := c.calleeEnv(&cl.Call, f, nil)
+			pp := c.Path(v, env)
+			if ok2, _, _ := c.Guard(g, nil, cmpReject(pp+" == nil rejected", token.EQL, pathIs(pp), pathIs("nil")), func(i ssa.Instruction) bool { return i == ssa.Instruction(cl) }); ok2 {
+				n++
+				return
+			}
+			if _, rv := k.isReviewed(g, "deref "+pp, cl); rv {
+				n++
+				return
+			}
+			bad = true
+		})
+		if bad {
+			return ""
+		}
+	}
+	if n == 0 {
+		return ""
+	}
+	return fmt.Sprintf("the value is a parameter member of the unexported %s; at each of its %d call site(s) the caller has checked it (nil test before the call, or a reviewed reason for the caller-side value)", short(f.String()), n)
 }
 
 // ---- B: index and slice bounds ------------------------------------------------------------------
@@ -865,6 +907,23 @@ func (k *c19) sliceBounds(f *ssa.Function, s *ssa.Slice) {
 		if kv, ok2 := constant.Int64Val(kc.Value); ok2 && kv >= 0 && k.lenAtLeast(f, s, "len("+xp+")", kv) {
 			k.obl("C19.B", key, true, instrPos(s), "constant lower bound not above a length known on every path")
 			return
+		}
+	}
+	// X[:len(A)] (or X[len(A):]) behind the rejection of len(A) >= len(X) / len(A) > len(X): the bound is within len(X)
+	for _, bnd := range []ssa.Value{s.Low, s.High} {
+		if bnd == nil {
+			continue
+		}
+		bp := c.Path(bnd, nil)
+		if !strings.HasPrefix(bp, "len(") || (s.Low != nil && s.High != nil) {
+			continue
+		}
+		for _, rej := range []token.Token{token.GEQ, token.GTR} {
+			chk := cmpReject(bp+" >= len(X) rejected", rej, pathIs(bp), pathIs("len("+xp+")"))
+			if ok, _, n := c.Guard(f, nil, chk, func(in ssa.Instruction) bool { return in == ssa.Instruction(s) }); ok && n > 0 {
+				k.obl("C19.B", key, true, instrPos(s), "slice bound "+bp+" lies behind the rejection of "+bp+" >= len of the sliced value")
+				return
+			}
 		}
 	}
 	// X[i:i+1] with 0 <= i < len(X)
